@@ -68,7 +68,7 @@ Clause(name, ok, tag, k) == ok \/ PrintT(<<"VIOL", name, k, tag>>)
 \* ---------------------------------------------------------------- ghosts
 G0 == [tr |-> -1, brought |-> 0, taken |-> 0, banks |-> <<>>, bankIds |-> {}, lastGc |-> 0, gids |-> {}, handLive |-> FALSE,
        handIds |-> <<>>, openBank |-> <<>>, openBlind |-> <<>>, openLabels |-> <<>>, lastParts |-> {}, afterBank |-> <<>>, afterIds |-> {},
-       missed |-> <<>>, missedIds |-> {}, ext |-> FALSE, extSetup |-> FALSE, closedBetween |-> FALSE, lastStatus |-> "none",
+       missed |-> <<>>, missedIds |-> {}, ext |-> FALSE, extSetup |-> FALSE, openWin |-> {}, closedBetween |-> FALSE, lastStatus |-> "none",
        cnt |-> <<>>, cntIds |-> {}, actEvents |-> <<>>, spyCalls |-> <<>>, inGate |-> "", blindSet |-> <<>>, blindSetInGate |-> FALSE,
        leftSince |-> {}, faults |-> 0, lastUpd |-> 0, kfMidLeave |-> FALSE,
        withholdSt |-> <<>>, settledSt |-> <<>>, openSt |-> <<>>, callQ |-> <<>>, pubH |-> <<>>, nospy |-> FALSE, ownTid |-> "", engineHand |-> <<>>, engineStatus |-> "none", lastGcSeen |-> 0, enginePlayers |-> 0, autoFails |-> 0, errEvents |-> 0, afterFire |-> FALSE, fireSt |-> <<>>]
@@ -96,6 +96,9 @@ Upd(gg, k) ==
       g2 == \* ---- external control requests
         IF t.ev \in {"call:PauseTable", "call:CloseTable", "call:ReleaseTable"}
         THEN [g1 EXCEPT !.ext = TRUE, !.closedBetween = @ \/ (t.ev # "call:PauseTable" /\ ~g1.handLive)]
+        ELSE IF g1.inGate = "open.cloned" /\ t.res = "ok" /\ t.ev \in {"ret:PlayerRedeemChips", "ret:PlayerJoin", "ret:CloseTable", "ret:ReleaseTable"}
+             THEN [g1 EXCEPT !.openWin = @ \cup {t.ev}, !.ext = @ \/ t.ev \in {"ret:CloseTable", "ret:ReleaseTable"},
+                             !.closedBetween = @ \/ (t.ev \in {"ret:CloseTable", "ret:ReleaseTable"} /\ ~g1.handLive)]
         ELSE IF t.ev = "ret:SetUpTableGame"     \* the competition layer replaced the engine's own set-up by one that cannot open a hand
              THEN [g1 EXCEPT !.extSetup = @ \/ Cardinality(Range(t.a.ids) \cap AliveInIds(st)) < 2]
         ELSE IF t.ev = "ret:UpdateBlind" THEN [g1 EXCEPT !.blindSet = t.a.blind, !.blindSetInGate = (g1.inGate # "")]
@@ -498,6 +501,8 @@ CheckLine(k, gg) ==
   LET t == Trace[k]  st == t.st
       ok == st.status \notin {"none", "projection-panic"}
       kfmid == IF gg.kfMidLeave THEN "KF-midhand-leave" ELSE ""
+      \* KF-open-window-overwrite: a lock-free call landed between the clone and the swap of tableGameOpen and was overwritten
+      kfwin(S, other) == IF gg.openWin \cap S # {} THEN "KF-open-window-overwrite" ELSE other
       midOp == gg.inGate \in {"members.add.mid", "members.remove.mid"}   \* another goroutine is parked in the middle of a membership operation
   IN
   t.ev = "scenario" \/
@@ -516,16 +521,16 @@ CheckLine(k, gg) ==
   /\ ok =>
      /\ Clause("C03_bijection", ((Trusty(t) \/ IsRet(t)) /\ ~midOp) => C03_bijection(st), kfmid, k)
      /\ Clause("C03_smAgree", ((t.ev \in {"q", "end"} \/ t.ev \in MemberEvs) /\ ~midOp) => C03_smAgree(st),
-               IF KF_UpdatePartial(t) THEN "KF-C03-update-partial" ELSE kfmid, k)
+               IF KF_UpdatePartial(t) THEN "KF-C03-update-partial" ELSE kfwin({"ret:PlayerJoin"}, kfmid), k)
      /\ Clause("C03_errorUnchanged", C03_errorUnchanged(t), IF KF_UpdatePartial(t) THEN "KF-C03-update-partial" ELSE "", k)
      /\ Clause("C03_reserveAccepted", C03_reserveAccepted(t), "", k)
-     /\ Clause("C01_conservation", C01_conservation(t, gg), kfmid, k)
+     /\ Clause("C01_conservation", C01_conservation(t, gg), kfwin({"ret:PlayerRedeemChips"}, kfmid), k)
      /\ Clause("C01_settleCredit", C01_settleCredit(t, gg), kfmid, k)
      /\ Clause("C02_openList", C02_openList(t), IF st.rule = "short_deck" THEN "KF-C02-shortdeck-order" ELSE "", k)
      /\ Clause("C02_stable", C02_stable(t, gg), kfmid, k)
      /\ Clause("C02_stack", C02_stack(t, gg), kfmid, k)
      /\ Clause("C02_actionBy", C02_actionBy(t, gg), kfmid, k)
-     /\ Clause("C05_dealtIn", C05_dealtIn(t), "", k)
+     /\ Clause("C05_dealtIn", C05_dealtIn(t), kfwin({"ret:PlayerJoin"}, ""), k)
      /\ Clause("C05_continuity", T_C05_continuity(t, gg), "", k)
      /\ Clause("C05_maxMissed", C05_maxMissed(t, gg), "", k)
      /\ Clause("C05_newcomerFlag", T_C05_newcomerFlag(t), "", k)
@@ -539,7 +544,7 @@ CheckLine(k, gg) ==
      /\ Clause("C07_freshGid", C07_freshGid(t, gg), "", k)
      /\ Clause("C07_oneAtATime", C07_oneAtATime(t, gg), "", k)
      /\ Clause("C07_reset", C07_reset(t), "", k)
-     /\ Clause("C07_noOpenAfterClose", C07_noOpenAfterClose(t, gg), "", k)
+     /\ Clause("C07_noOpenAfterClose", C07_noOpenAfterClose(t, gg), kfwin({"ret:CloseTable", "ret:ReleaseTable"}, ""), k)
      /\ Clause("C07_noOpenOnBreak", C07_noOpenOnBreak(t), "", k)
      /\ Clause("C08_pauseIff", C08_pauseIff(t, gg), "", k)
      /\ Clause("C08_gateParticipants", C08_gateParticipants(t), "", k)
